@@ -1,10 +1,91 @@
 import SV.Driver.Util
-/- svdriver_c12: line protocol for the C12 model (stub until the model is built). -/
+import SV.Model.LayerLife
+/-
+svdriver_c12: line protocol for the C12 model (layer life cycle behind fs/layer.Resolver).
+  new                                       -> ok                       fresh Resolver
+  resolve <name> <lchk> <bchk> <bres> <meta>   (0 = that step fails, 1 = succeeds)
+        -> ok <hit|fresh|existing> l=<layer id> h=<holder#> <tail>   |   err <blob|meta> <tail>
+  done <h> <0|1>                            -> unit <tail>              Done() / Close()
+  expire l <name> | expire b <name>         -> unit <tail>              timer of layer / blob cache
+  refresh <h> <0|1>                         -> ok|err <tail>
+  read <h> | readold <h>                    -> ok|err <tail>
+<tail> = fs=<#fscache dirs> http=<#httpcache dirs> ev=<lid:cRMFBH,...|->
+`ev` lists every layer whose status changed during the operation (new layers included) with its
+new status: c layer closed, R reader closed, M metadata closed, F fs cache closed (directory gone),
+B its blob closed, H its blob's http cache closed (directory gone); each 0/1.
+Holders are numbered by the harness in the order of successful resolves.
+-/
 namespace SV.Driver.C12
+open SV.Driver SV.LayerLife SV.Refcount
 
-def step (s : Unit) : List String → Unit × String
-  | _ => (s, "bad-op")
+structure St where
+  s : State := {}
+  holders : List Nat := []      -- holder# -> closure (token) of the layer cache
+
+def b01 (b : Bool) : String := if b then "1" else "0"
+
+def status (s : State) (lid : Nat) : Option String :=
+  match s.layers[lid]? with
+  | none => none
+  | some l =>
+    let (bc, bh) :=
+      match blobOfTok s l.blobTok with
+      | none => (true, true)
+      | some bid =>
+        match s.blobs[bid]? with
+        | none => (true, true)
+        | some b => (b.closed, b.cacheClosed)
+    some (b01 l.closed ++ b01 l.readerClosed ++ b01 l.metadataClosed ++ b01 l.cachesClosed ++ b01 bc ++ b01 bh)
+
+def events (s s' : State) : String :=
+  let evs := (List.range s'.layers.length).filterMap fun lid =>
+    match status s' lid with
+    | none => none
+    | some st => if status s lid == some st then none else some s!"{lid}:{st}"
+  if evs.isEmpty then "-" else ",".intercalate evs
+
+def tail (s s' : State) : String := s!" fs={s'.fsDirs} http={s'.httpDirs} ev={events s s'}"
+
+def parseBool? : String → Option Bool
+  | "0" => some false
+  | "1" => some true
+  | _ => none
+
+def showOut (st : St) (s' : State) (o : Out) : St × String :=
+  let t := tail st.s s'
+  let h := st.holders.length
+  match o with
+  | .hit lid tok => ({ s := s', holders := st.holders ++ [tok] }, s!"ok hit l={lid} h={h}" ++ t)
+  | .fresh lid tok => ({ s := s', holders := st.holders ++ [tok] }, s!"ok fresh l={lid} h={h}" ++ t)
+  | .existing lid tok => ({ s := s', holders := st.holders ++ [tok] }, s!"ok existing l={lid} h={h}" ++ t)
+  | .errBlob => ({ st with s := s' }, "err blob" ++ t)
+  | .errMeta => ({ st with s := s' }, "err meta" ++ t)
+  | .unit => ({ st with s := s' }, "unit" ++ t)
+  | .ok => ({ st with s := s' }, "ok" ++ t)
+  | .err => ({ st with s := s' }, "err" ++ t)
+  | .badTok => (st, "bad-op")
+
+def parseOp? (st : St) : List String → Option Op
+  | ["resolve", n, a, b, c, d] => do
+    some (.resolve (← parseNat? n) ⟨← parseBool? a, ← parseBool? b, ← parseBool? c, ← parseBool? d⟩)
+  | ["done", h, e] => do some (.done (← st.holders[← parseNat? h]?) (← parseBool? e))
+  | ["expire", "l", n] => do some (.expireL (← parseNat? n))
+  | ["expire", "b", n] => do some (.expireB (← parseNat? n))
+  | ["refresh", h, r] => do some (.refresh (← st.holders[← parseNat? h]?) (← parseBool? r))
+  | ["read", h] => do some (.read (← st.holders[← parseNat? h]?))
+  | ["readold", h] => do some (.readOld (← st.holders[← parseNat? h]?))
+  | _ => none
+
+def step (st : St) (ws : List String) : St × String :=
+  match ws with
+  | ["new"] => ({}, "ok")
+  | _ =>
+    match parseOp? st ws with
+    | none => (st, "bad-op")
+    | some op =>
+      let (s', o) := SV.LayerLife.step st.s op
+      showOut st s' o
 
 end SV.Driver.C12
 
-def main : IO Unit := SV.Driver.loop SV.Driver.C12.step ()
+def main : IO Unit := SV.Driver.loop SV.Driver.C12.step {}
